@@ -30,7 +30,7 @@ func propVerify(t *rapid.T) {
 	dPrime := gen.NonZero256(t, ref.N, "d")
 	pk := ref.B32(ref.BaseMul(dPrime).X)
 	msg := gen.Message(t, "msg")
-	how := rapid.SampledFrom([]string{"signed", "signed", "signed", "odd-R", "R=O", "chosen-nonce", "random"}).Draw(t, "how")
+	how := gen.Sampled([]string{"signed", "signed", "signed", "odd-R", "R=O", "chosen-nonce", "random"}).Draw(t, "how")
 	var sig []byte
 	switch how {
 	case "signed":
@@ -58,7 +58,7 @@ func propVerify(t *rapid.T) {
 	default:
 		sig = gen.Bytes(t, 64, 64, "sig")
 	}
-	edit := rapid.SampledFrom([]string{"none", "none", "none", "none", "none", "none", "none", "none", "none", "r+1", "r-1", "s+1", "s-1", "s-negated", "msg-bit", "msg-extend", "msg-truncate", "other-key",
+	edit := gen.Sampled([]string{"none", "none", "none", "none", "none", "none", "none", "none", "none", "r+1", "r-1", "s+1", "s-1", "s-negated", "msg-bit", "msg-extend", "msg-truncate", "other-key",
 		"r=p-1", "r=p", "r=2^256-1", "r+p", "s=0", "s=n-1", "s=n", "s+n", "s=2^256-1", "truncate", "extend", "empty", "len-any"}).Draw(t, "edit")
 	pk2, msg2 := pk, append([]byte(nil), msg...)
 	sig = append([]byte(nil), sig...)
@@ -178,7 +178,7 @@ func liftY(x *big.Int, odd bool) *big.Int {
 func TestC13_Verify(t *testing.T) { rapid.Check(t, propVerify) }
 
 func propKeyImport(t *rapid.T) {
-	kind := rapid.SampledFrom([]string{"on-curve", "on-curve", "off-curve", "x>=p", "x+p", "zero", "badlen", "raw", "with-prefix"}).Draw(t, "kind")
+	kind := gen.Sampled([]string{"on-curve", "on-curve", "off-curve", "x>=p", "x+p", "zero", "badlen", "raw", "with-prefix"}).Draw(t, "kind")
 	var raw []byte
 	switch kind {
 	case "on-curve":
@@ -196,7 +196,7 @@ func propKeyImport(t *rapid.T) {
 	case "zero":
 		raw = make([]byte, 32)
 	case "badlen":
-		n := rapid.SampledFrom([]int{0, 1, 31, 33, 64, 65}).Draw(t, "len")
+		n := gen.Sampled([]int{0, 1, 31, 33, 64, 65}).Draw(t, "len")
 		raw = gen.Bytes(t, n, n, "raw")
 		if n == 33 && rapid.Bool().Draw(t, "valid33") {
 			raw = gen.NonIdentityPoint(t, "pt").P.Compressed()
